@@ -355,8 +355,10 @@ class Ctx:
             "wall_s": round(time.time() - self.t0, 2),
             "violations": nviol,
         }
-        if self.exhaustive is not None:
+        if isinstance(self.exhaustive, bool):
             ev["coverage"]["exhaustive"] = self.exhaustive
+        elif self.exhaustive is not None:      # details about which sub-domains were enumerated completely
+            ev["coverage"]["exhaustive_subdomains"] = self.exhaustive
         if self.scratch:
             json.dump(ev, open(os.path.join(self.build, "evidence.json"), "w"), indent=1, default=str)
             return
